@@ -123,6 +123,11 @@ def from_module(c, key):
         qs = [f"{kw[(j + i) % 2]}::{Q}" for i in range(n)] if vlib.seeded_pick(key + str(j), 9, 2) == 0 else [Q] * n
         if not is_enum and n == 1 and j == 0 and vlib.seeded_pick(key, 19, 2) == 0:
             qs = [["skip", "ignore"][vlib.seeded_pick(key, 23, 2)]]      # type aliases of Q1 named like the variant keywords
+        # a HETEROGENEOUS listed tuple for two or more fields: every second component is the field's own type (P: From<P>),
+        # so a component handed to the wrong field no longer type-checks
+        hetero = v["attr"] == "types" and n >= 2 and qs == [Q] * n
+        if hetero:
+            qs = [Q if i % 2 == 0 else P for i in range(n)]
         attr = {"none": "", "from": "#[from] ", "skip": "#[from(skip)] ", "forward": "#[from(forward)] ", "empty": "#[from()] ",
                 "types": f"#[from({tup(qs)})] "}[v["attr"]]
         if not is_enum and v["attr"] in ("from", "skip"):
@@ -163,10 +168,11 @@ def from_module(c, key):
             rows.append(f'rows.push(format!("from_tuple {j} {{:?}}", match E::from({vals}) {{ {pat} => {fields_vec}{other} }}));')
             exp.append(f"from_tuple {j} {want}")
         if has_types or has_fwd:
-            vals = tup([f"{Q}({i + 1})" for i in range(n)])
+            vals = tup([f"{(Q if (not (hetero and has_types) or i % 2 == 0) else P)}({i + 1})" for i in range(n)])
             kind = "types" if has_types else "forward"
             rows.append(f'{{ let c0 = count(); let e = E::from({vals}); let c1 = count(); rows.push(format!("from_{kind} {j} {{:?}} {{}}", match e {{ {pat} => {fields_vec}{other} }}, c1 - c0)); }}')
-            exp.append(f"from_{kind} {j} {want} {n}")
+            # (one counted From::from per component that is not already the field's type)
+            exp.append(f"from_{kind} {j} {want} {(n + 1) // 2 if (hetero and has_types) else n}")
     if is_enum:
         decl = "#[derive(derive_more::From, Debug)]\npub enum E { " + ", ".join(decls) + " }"
     else:
